@@ -167,10 +167,10 @@ fn hostile_conn(r: &mut Rng, nonce: &mut u64, port: u16, span_ms: u64) -> ConnPl
         11 | 13 | 14 => {
             // a request whose typed parameters or body cannot be decoded (one
             // malformation from the C10 catalogue): malformed, so 4xx/5xx
-            use super::echo_gen::{gen_form, gen_narrow, gen_page, gen_raw, gen_typed, gen_wild};
+            use super::echo_gen::{gen_form, gen_narrow, gen_page, gen_pal, gen_raw, gen_typed, gen_wild};
             let mut e = match r.below(9) {
                 0 => gen_form(r, my, 0, 0),
-                1 => gen_narrow(r, my, 0, 0),
+                1 => if r.chance(1, 2) { gen_narrow(r, my, 0, 0) } else { gen_pal(r, my, 0, 0) },
                 2 => gen_page(r, my, 0, 0),
                 3 | 4 => gen_wild(r, my, 0, 0),
                 5 => gen_raw(r, my, 0, 0, false),
